@@ -132,11 +132,12 @@ class NewTextTemplate(Template):
     _ESCAPE_RE = r'\\\n|\\\r\n|\\(\\)|\\(%s)|\\(%s)'
 
     def __init__(self, source, filepath=None, filename=None, loader=None,
-                 encoding=None, lookup='strict', allow_exec=False,
+                 encoding=None, lookup='strict', allow_exec=True,
                  delims=('{%', '%}', '{#', '#}')):
         self.delimiters = delims
         Template.__init__(self, source, filepath=filepath, filename=filename,
-                          loader=loader, encoding=encoding, lookup=lookup)
+                          loader=loader, encoding=encoding, lookup=lookup,
+                          allow_exec=allow_exec)
 
     def _get_delims(self):
         return self._delims
